@@ -23,7 +23,7 @@ def gen_cases(rng, tier):
     cases = []
     for i in range(n):
         nk = rng.choice([1, 2, 3, 3, 4])
-        cases.append({"size": rng.choice([1000, nk + 1]), "purge": rng.random() < 0.5,
+        cases.append({"size": rng.choice([1000, nk + 1]), "purge": rng.random() < 0.5, "align": rng.random() < 0.3,
                       "serializer": rng.choice(["none", "none", "pickle", "secret"]), "facade": rng.random() < 0.3,
                       "events": memrun.gen_history(rng, nk, rng.randint(1, 40))})
     if tier == "thorough":  # all 2-event histories over one key from a small command alphabet x advance
